@@ -56,7 +56,7 @@ def shards(tier):
 def floors(tier):
     scale = 1 if tier == 'quick' else 12
     return {'evaluations': 120 * scale, 'responses_checked': 100 * scale, 'failing_requests_injected': 10 * scale,
-            'failing_alone_confirmed': 10 * scale, 'batches': 6 * scale, 'out_of_order_batches': 1,
+            'failing_alone_confirmed': 10 * scale, 'batches': 6 * scale, 'out_of_order_batches': 1, 'cold_start_requests': 3,
             'yield_injections': 50}
 
 
@@ -64,6 +64,7 @@ class Yielder:
     """sys.monitoring LINE hook: seeded sleep(0)/sub-ms sleeps inside the named functions; counts interleaving switches."""
 
     TOOL = 3
+    HOT = ('_get_descriptor',)
 
     def __init__(self, rng, functions):
         self.rng = rng
@@ -98,31 +99,35 @@ class Yielder:
                 self.signature = hash((self.signature, code.co_name, threading.current_thread().name[:8])) & 0xFFFFFFFF
                 self.last = who
             roll = self.rng.random()
-        if roll < 0.15:
+        if code.co_name in self.HOT:  # check-then-act sequences on shared caches: widen every window
+            if roll < 0.6:
+                time.sleep(0.001)
+        elif roll < 0.15:
             time.sleep(0)
         elif roll < 0.2:
             time.sleep(0.0005)
 
 
 def build_world(workdir, config, salt):
-    """Registry with projects/generations + inventory with applications; returns the expectation table."""
-    from vlib import projgen, serving
+    """Registry + inventory built by a separate process (vlib.serving); returns the expectation table."""
+    import subprocess
 
-    registry = os.path.join(workdir, 'registry')
-    inventory = os.path.join(workdir, 'inventory')
-    adir = projgen.directory(registry)
+    from vlib import core
+
+    job = os.path.join(workdir, 'world.json')
+    with open(job, 'w', encoding='utf-8') as fd:
+        json.dump({'workdir': workdir, 'config': config, 'salt': salt}, fd)
+    env = dict(os.environ, PYTHONPATH=os.pathsep.join([core.REPO, core.VERIF]))
+    proc = subprocess.run([sys.executable, '-m', 'vlib.serving', job], env=env, cwd=workdir, capture_output=True, text=True,
+                          timeout=900, check=False)
+    if proc.returncode != 0:
+        raise core.Inconclusive(f'world builder failed: {proc.stderr[-600:]}')
     apps = {}
     for p, (project, actors, generations) in enumerate(config['projects']):
-        projgen.publish(adir, serving.write_project(workdir, project, '1', actors, salt, config['delay_ms']))
-        nonces = []
-        for g in range(generations):
-            nonce = f'{project}g{g + 1}n{salt}'
-            serving.train(registry, project, '1', nonce)
-            nonces.append(nonce)
+        nonces = [f'{project}g{g + 1}n{salt}' for g in range(generations)]
         for app, generation in config['apps'][p]:
-            serving.write_application(inventory, app, project, '1', generation)
             apps[app] = {'project': project, 'generation': generation, 'actors': actors, 'nonce': nonces[generation - 1]}
-    return registry, inventory, apps
+    return os.path.join(workdir, 'registry'), os.path.join(workdir, 'inventory'), apps
 
 
 def make_request(layout, rid, tag, kind):
@@ -157,7 +162,7 @@ async def run_batch(ctx, engine, layout, apps, batch, history):
     return order, pending
 
 
-def judge(ctx, apps, history, batch, order, config_sig):
+def judge(ctx, apps, history, batch, order, config_sig, cold=False):
     """Check every completed request of the batch against the oracle."""
     import forml
 
@@ -182,6 +187,8 @@ def judge(ctx, apps, history, batch, order, config_sig):
             if record['outcome'][0] != 'ok':
                 neighbours = [k for _, _, _, k in batch if k != 'ok']
                 key = 'healthy-request-failed-next-to-failing-one' if neighbours else 'healthy-request-failed'
+                if cold and record['outcome'][1] in ('MissingError', 'KeyError') and app in str(record['outcome'][2]):
+                    key = 'cold-start-descriptor-lookup-race'
                 ctx.violation(key, f'request {rid} to {app} failed with {record["outcome"][1:]} (failing neighbours: '
                               f'{sorted(set(neighbours))})', witness)
                 continue
@@ -246,15 +253,19 @@ def serve_config(ctx, config, index):
             with Yielder(rng, functions) as yielder:
                 loop = asyncio.new_event_loop()
                 try:
-                    # warm-up: executors spawn lazily on the first request per instance
-                    for app in appnames:
+                    # cold start: the very first requests arrive concurrently (descriptors are looked up and executors
+                    # spawned lazily on first use - the interleaving most likely to go wrong)
+                    batch = []
+                    for app in appnames * 4:
                         rid += 1
-                        batch = [(rid, app, f'w{rid}', 'ok')]
-                        order, pending = loop.run_until_complete(run_batch(ctx, engine, layout, apps, batch, history))
-                        if pending:
-                            ctx.inconclusive(f'warm-up request to {app} not answered within {BATCH_WATCHDOG}s')
-                            return
-                        judge(ctx, apps, history, batch, order, config_sig)
+                        batch.append((rid, app, f'w{rid}', 'ok'))
+                    ctx.count('batches')
+                    ctx.count('cold_start_requests', len(batch))
+                    order, pending = loop.run_until_complete(run_batch(ctx, engine, layout, apps, batch, history))
+                    if pending:
+                        ctx.inconclusive(f'cold-start batch not answered within {BATCH_WATCHDOG}s')
+                        return
+                    judge(ctx, apps, history, batch, order, config_sig, cold=True)
                     for size in config['batches']:
                         batch = []
                         for _ in range(size):
